@@ -33,6 +33,13 @@ struct MemDrive : public DFS::AbstractDrive
 };
 }
 
+static MemDrive *the_drive;
+std::optional<DFS::VolumeMountResult> stub_mount(const DFS::StorageConfiguration *, const DFS::VolumeSelector&, std::string&)
+{
+  DFS::Volume *v = new DFS::Volume(DFS::Format::DFS, 0, 0, 800, *the_drive);
+  return DFS::VolumeMountResult(std::unique_ptr<DFS::FileSystem>(), v);
+}
+
 // One catalogued file whose 7 name bytes and directory byte are arbitrary (hostile catalogue).
 extern "C" void h_extract_paths(void)
 {
@@ -43,9 +50,11 @@ extern "C" void h_extract_paths(void)
   vf_assume((drive.s0[8] & 0x7F) != ' ' && (drive.s0[8] & 0x7F) != 0); // a file has a name
   drive.s1[8 + 4] = 1; drive.s1[8 + 7] = 2;                             // one byte long, at sector 2
   DFS::StorageConfiguration storage;
-  std::vector<std::optional<DFS::DriveConfig>> drives;
-  drives.emplace_back(DFS::DriveConfig(DFS::Format::DFS, &drive));
-  storage.connect_drives(drives, DFS::DriveAllocation::FIRST);
+  the_drive = &drive;
+#ifdef VF_NATIVE
+  // the native build (replay / translator validation) has no call redirection: attach the drive for real
+  { std::vector<std::optional<DFS::DriveConfig>> drives; drives.emplace_back(DFS::DriveConfig(DFS::Format::DFS, &drive)); storage.connect_drives(drives, DFS::DriveAllocation::FIRST); }
+#endif
   DFS::DFSContext ctx('$', DFS::VolumeSelector(0));
   CommandExtractFiles cmd;
   const bool slash = vf_nondet_u8() & 1;
